@@ -10,6 +10,7 @@ type st = {
   mutable stale : bool;
   mutable ps : int;
   mutable nfs : bool;
+  mutable ro : bool;
 }
 
 let empty_root : Spec.bucket = (BinNums.N0, [])
@@ -26,7 +27,7 @@ let run mode file =
   let cases = ref 0 and ops = ref 0 and mism = ref 0 and pfail = ref 0 and imgs = ref 0 in
   let kinds = Hashtbl.create 32 in
   let bump k = Hashtbl.replace kinds k (1 + try Hashtbl.find kinds k with Not_found -> 0) in
-  let s = { committed = empty_root; work = None; readers = Hashtbl.create 4; stale = false; ps = 4096; nfs = false } in
+  let s = { committed = empty_root; work = None; readers = Hashtbl.create 4; stale = false; ps = 4096; nfs = false; ro = false } in
   let case_id = ref "" and opidx = ref 0 and optext = Buffer.create 1024 and flags = ref [] and dead = ref false in
   let cur = ref [] in
   let flag f = if not (List.mem f !flags) then flags := f :: !flags in
@@ -81,11 +82,14 @@ let run mode file =
        | "open" :: fields ->
          bump "open";
          List.iter (fun f -> match String.split_on_char '=' f with
-           | ["ps"; v] -> s.ps <- int_of_string v | ["nfs"; v] -> s.nfs <- v <> "0" | _ -> ()) fields;
+           | ["ps"; v] -> s.ps <- int_of_string v | ["nfs"; v] -> s.nfs <- v <> "0" | ["ro"; v] -> s.ro <- v <> "0" | _ -> ()) fields;
+         if s.ro then flag "read-only-open";
          expect res_s "ok" "open"
        | ["close"] -> bump "close"; s.work <- None; Hashtbl.reset s.readers; unmapped := false; expect res_s "ok" "close"
        | ["beginw"] -> bump "beginw";
          (match res with
+          | ["EDatabaseReadOnly"] when s.ro -> flag "err-EDatabaseReadOnly"
+          | _ when s.ro -> mismatch "beginw" res_s "EDatabaseReadOnly"
           | "ok" :: _ -> s.work <- Some s.committed
           | ["EInvalidMapping"] when !unmapped -> flag "unmapped-begin-refused"     (* not blocking: refused promptly until reopen *)
           | ["hang"] -> propfail "next_writer_blocks" "Begin(true) did not return"; dead := true
